@@ -109,7 +109,7 @@ def forms(p: str) -> List[str]:
 
 def forms_for(kind: str, p: str) -> List[str]:
     fs = forms(p)
-    if kind.startswith("reexport."):
+    if kind.startswith(("reexport.", "nested.")):
         fs += [RAWTAIL, placeholder(RAWTAIL)]        # the raw block planted next to the payload
     if RAWTAIL in p or placeholder(RAWTAIL) in p:
         head = p[:len(MARK) + 2]
@@ -129,7 +129,8 @@ def fname(p: str) -> str:
 PYVAL_KINDS = ["strconst", "default", "annotation", "decoarg", "baseexpr", "typealias"]
 KINDS = (["modname"] + [f"doc.{f}" for f in DOCFORMATS] + [f"field.{f}" for f in DOCFORMATS if f != "plaintext"]
          + ["xref.epytext", "xref.restructuredtext", "doctest.epytext", "doctest.restructuredtext"]
-         + PYVAL_KINDS + ["deprecated", "imagealt", "reexport.plaintext", "mathtext", "projname", "projurl"])
+         + PYVAL_KINDS + ["deprecated"] + [f"imagealt.{e}" for e in ("png", "pdf", "PNG", "svg", "SVG", "webm")] + ["imageuri.svg"]
+         + ["reexport.plaintext", "nested.plaintext.appfirst", "nested.plaintext.pkgfirst", "mathtext", "projname", "projurl"])
 
 
 def payload_for(kind: str, p: str) -> str:
@@ -154,6 +155,7 @@ def gen(kind: str, p: str) -> Dict[str, Any]:
     R = repr(p)
     files: Dict[str, str] = {"zpkg/__init__.py": '"""Package doc."""\n'}
     args: List[str] = []
+    roots: List[str] = ["zpkg"]
     base, _, fmt = kind.partition(".")
     if fmt:
         args += ["--docformat", fmt]
@@ -214,11 +216,30 @@ def gen(kind: str, p: str) -> Dict[str, Any]:
         args += ["--docformat", "restructuredtext"]
         d = f"Module.\n\nFormula :math:`a \\\\text{{{p}}} b` and :math:`\\\\mbox{{{p}}}` end."
         files["zpkg/amod.py"] = _escape_docstring_source(_ds(d, 0) + "class Dcls:\n" + _ds(d, 4))
-    elif kind == "imagealt":
-        # :alt: text of images in a reST docstring: attribute of <img>, content of <object> for .svg & co
-        args += ["--docformat", "restructuredtext"]
-        d = f"Module.\n\n.. image:: picture.svg\n   :alt: {p}\n\n.. image:: picture.png\n   :alt: {p}\n\nEnd."
+    elif base == "imagealt":
+        # :alt: text of an image in a reST docstring: attribute of <img>, content of <object> - by image type
+        args = ["--docformat", "restructuredtext"]
+        d = f"Module.\n\n.. image:: picture.{fmt}\n   :alt: {p}\n\nEnd."
         files["zpkg/amod.py"] = _escape_docstring_source(_ds(d, 0) + "class Dcls:\n" + _ds(d, 4))
+    elif kind == "imageuri.svg":
+        # no :alt: - the uri itself is what the <object> shows
+        args = ["--docformat", "restructuredtext"]
+        d = f"Module.\n\n.. image:: {p}.svg\n\nEnd."
+        files["zpkg/amod.py"] = _escape_docstring_source(_ds(d, 0) + "class Dcls:\n" + _ds(d, 4))
+    elif kind.startswith("nested.plaintext."):
+        # zpkg/sub/mod.py two packages deep, `__docformat__ = "plaintext"` in the OUTER __init__; a root module imports from it
+        args = ["--docformat", "restructuredtext"]
+        block = "<i>" + RAWTAIL
+        if not any(c in p for c in "<>&\"'"):
+            block = placeholder(block)              # the twin
+        d = f"Word {p} first. More text.\n\nSecond {p} paragraph.\n\n.. raw:: html\n\n   {block}\n"
+        files["zpkg/__init__.py"] = '"""Package doc."""\n__docformat__ = "plaintext"\n'
+        files["zpkg/sub/__init__.py"] = '"""Sub package doc."""\n'
+        files["zpkg/sub/mod.py"] = _escape_docstring_source(
+            _ds(d, 0) + "class Thing:\n" + _ds(d, 4) + "    @property\n    def prop(self):\n" + _ds(d, 8)
+            + "    def meth(self):\n" + _ds(d, 8) + "def fun():\n" + _ds(d, 4))
+        files["zapp.py"] = '"""App."""\nfrom zpkg.sub.mod import Thing\nclass Sub(Thing):\n    "sub"\n'
+        roots = ["zapp.py", "zpkg"] if kind.endswith("appfirst") else ["zpkg", "zapp.py"]
     elif kind == "deprecated":
         # extensions/deprecate.py interpolates the replacement= string into reST source
         files["zpkg/amod.py"] = ('"""Module."""\nfrom twisted.python.deprecate import deprecated\nfrom incremental import Version\n'
@@ -232,7 +253,7 @@ def gen(kind: str, p: str) -> Dict[str, Any]:
         args += ["--project-name", "Proj", "--project-url", "http://example.org/?q=" + p]
     else:
         raise MachineryError(f"unknown source kind {kind}")
-    return {"files": files, "args": args}
+    return {"files": files, "args": args, "roots": roots}
 
 
 def _escape_docstring_source(src: str) -> str:
@@ -557,7 +578,7 @@ def run_pydoctor(job: Dict[str, Any]) -> Dict[str, Any]:
         with contextlib.redirect_stdout(buf), contextlib.redirect_stderr(buf):
             from pydoctor import driver
             try:
-                rc = driver.main(["--html-output", str(out), "--quiet"] + g["args"] + ["zpkg"])
+                rc = driver.main(["--html-output", str(out), "--quiet"] + g["args"] + g["roots"])
             except SystemExit as e:
                 rc = f"SystemExit({e.code})"
             except BaseException as e:               # a run that aborts is C01's business; reported as machinery here
